@@ -118,4 +118,32 @@ PROPS["C11"] = {
     "assumptions": ["the number of connectors does not exceed the number of pins when all pins are exclusive ('provided a free pin exists')"],
     "parts": [{"name": "pins", "src": "c11_pins.cpp", "quick": T(120, 20, [], 100), "thorough": T(1700, 30, [], 100)}],
 }
+def SAN(name, src, args, qd, td, case_limit=30):
+    return {"name": name, "src": src, "variant": "san", "abort_is_violation": True, "quick": T(qd, case_limit, args + ["--c15", "1"], 1), "thorough": T(td, case_limit * 2, args + ["--c15", "1"], 1)}
+
+PROPS["C15"] = {
+    "engine": "mcx-bfs",
+    "heap": True,
+    "technique": "explicit-state model checking of the implementation in the sanitised build: exhaustive enumeration of legal API histories and of the other properties' input alphabets; oracle = ASan/UBSan reports, library assertions (thrown as CriticalFailure), per-case CPU horizon, live-allocation count",
+    "rule": "engine 1: every legal sequence of documented Router API calls (add/move/delete shape, add pin, add/move/delete junction, add connector with point/pin/junction ends, set endpoint, delete connector, set option/parameter, processTransaction) to the depth bound, polyline and orthogonal, transactions on/off, always ending with ~Router (so routers with queued actions are destroyed); engine 2: the quick alphabets of the other properties (VPSC instances and histories, routing scenes, nudging corridors, pins, hyperedges, libcola layouts, removeoverlaps, libtopology steps, HOLA, decompositions, shortest paths, transforms/TGLF) replayed in the build with AddressSanitizer + UndefinedBehaviourSanitizer + pattern-initialised locals, with functional verdicts muted. A violation is an ASan/UBSan report, a failed library assertion, a case exceeding its CPU horizon, or allocations still live after the owning object is destroyed (repeatable). Non-trivial (engine 1) = the router is destroyed with queued, unprocessed actions.",
+    "bounds": {"quick": "Router histories depth<=4 (depth 4 with transactions on); other alphabets at their quick bounds under a per-part deadline", "thorough": "Router histories depth 5; other alphabets with longer deadlines"},
+    "assumptions": ["legality of a history is decided by the scene model in harness/c15_router.cpp from the documented preconditions only", "uninitialised reads are caught where they reach a sanitizer check (bool/enum loads, pattern-filled locals) or a library assertion; there is no MemorySanitizer pass", "parts that hit their deadline report exhaustive:false"],
+    "parts": [
+        SAN("router_histories", "c15_router.cpp", [], 90, 900),
+        SAN("vpsc", "c01_vpsc.cpp", ["--prop", "C01"], 25, 300, 10),
+        SAN("routing", "c03_routing.cpp", ["--prop", "C03"], 25, 300),
+        SAN("incremental", "c06_incremental.cpp", [], 20, 300),
+        SAN("nudging", "c10_nudging.cpp", [], 20, 300),
+        SAN("pins", "c11_pins.cpp", [], 15, 200),
+        SAN("hyperedges", "c12_hyperedge.cpp", [], 20, 300),
+        SAN("cola", "c07_cola.cpp", ["--prop", "C07"], 25, 300, 8),
+        SAN("cola_overlap_clusters", "c07_cola.cpp", ["--prop", "C08"], 20, 300, 8),
+        SAN("overlaps", "c09_overlaps.cpp", [], 10, 100),
+        SAN("topology", "c13_topology.cpp", [], 15, 200),
+        SAN("hola", "c14_hola.cpp", [], 30, 400, 60),
+        SAN("decompositions", "c19_decomp.cpp", [], 15, 200),
+        SAN("paths", "c17_paths.cpp", [], 5, 60),
+        SAN("transforms", "c18_transforms.cpp", [], 10, 100),
+    ],
+}
 NOT_APPLICABLE = {}
